@@ -100,6 +100,7 @@ instance : Inhabited Stmt := ⟨.ret default⟩
 structure Block where
   stmts : List Stmt
   npreds : Nat := 0          -- number of predecessors of the block (value propagation compares it with the arity of a phi)
+  doms : List Nat := []      -- the blocks that dominate this one (the pre-pass of value propagation asks whether an assignment comes first)
   deriving Inhabited
 
 structure Cfg where
